@@ -129,3 +129,20 @@ fn f7_iter_returns_declared_dimension_for_binary_quantized() {
     let (_, it) = reader.iter(&rtxn).unwrap().next().unwrap().unwrap();
     assert_eq!(it, got);
 }
+
+/// F8 (KNOWN FINDING, C14, not repaired): with a bucket capacity >= 200 and a tiny memory hint an over-full bucket is re-queued forever.
+/// This test FAILS on the current tree (the build is cancelled after 15 s).
+#[test]
+fn f8_memory_limited_build_with_large_capacity_terminates() {
+    use std::time::{Duration, Instant};
+    let handle = create_database::<Euclidean>();
+    let mut wtxn = handle.env.write_txn().unwrap();
+    let writer = Writer::new(handle.database, 0, 2);
+    for i in 0..600u32 {
+        writer.add_item(&mut wtxn, i, &[(i % 25) as f32, (i / 25) as f32]).unwrap();
+    }
+    let start = Instant::now();
+    let r = writer.builder(&mut rng()).n_trees(1).split_after(250).available_memory(0)
+        .cancel(move || start.elapsed() > Duration::from_secs(15)).build(&mut wtxn);
+    assert!(r.is_ok(), "build did not terminate within 15 s: {r:?}");
+}
